@@ -27,6 +27,9 @@ type cfg struct {
 	LogScale int      `json:"logScale,omitempty"`
 	NTT      bool     `json:"ntt"`
 	H        int      `json:"h,omitempty"` // Hamming weight of the secret (0 = library default)
+	// Dense > 0: the sum case only runs n = 2^k-1 <= Dense (every bit set: the longest chains of accumulated
+	// rotations, which is where a lazily reduced accumulator runs out of headroom) with batch 1 and 3.
+	Dense int `json:"dense,omitempty"`
 }
 
 func (c cfg) tag() string {
